@@ -164,9 +164,10 @@ func TestClose(t *testing.T) {
 			t.Fatalf("C14: App.Close panicked: %v\n%s", p, desc)
 		}
 		// wait for the other overlapping call too (all gates are open)
-		for w := 0; atomic.LoadInt32(&returned) < int32(ncalls); w++ {
-			if w > 2000000 {
-				t.Fatalf("C14: an overlapping App.Close call never returned\n%s", desc)
+		deadline := time.Now().Add(10 * time.Second) // every gate is open: all work is finishable
+		for atomic.LoadInt32(&returned) < int32(ncalls) {
+			if time.Now().After(deadline) {
+				t.Fatalf("C14: an overlapping App.Close call did not return within 10s after every gate was opened\n%s", desc)
 			}
 			runtime.Gosched()
 		}
